@@ -4,7 +4,11 @@ Generated abbreviations come from an AST (repeat_util.El / Group with numbering 
 property ORACLE computes the forest of (name, attributes, text) the statement prescribes directly
 from that AST (copies, counters, maxRepeat clause) and compares it with a tag parse of
 emmet.expand's output.  The extracted Coq model runs on the same inputs and its full output
-string is compared with the implementation's."""
+string is compared with the implementation's.
+
+Besides counters the AST carries what stands next to them in real abbreviations and shares state with
+the copy loop: attributes written in every documented way (repeat_util.ATTR_KINDS) and the `$#`
+placeholder with the texts it stands for (none, a string, lines with `*` line repeaters)."""
 import copy
 import glob
 import json
@@ -648,7 +652,23 @@ def run(ctx):
         'is reached, then every repeater stops after the copy it is in) = tag parse of the output. Under a limit '
         'a reversed counter still counts down from start+N-1 (N as written). Outside the claim, compared with the '
         'model only: *0, implicit *, the @^ modifier. Numbering tokens: every form alone and embedded, token '
-        'fields compared with the written (size, reverse, base).')
+        'fields compared with the written (size, reverse, base). '
+        'Attribute value kinds: every way of writing an attribute (unquoted, "..", \'..\', {expression}, explicitly '
+        'empty "" \'\' {}, no value, boolean `name.`, implied `!name` with each of these) in forms (position attrx), in '
+        'a stream of its own (kind x value x numbered name x repeated element / group / nested in a repeater / '
+        'nested in a repeated group / unrepeated descendant x N in 1,2,3,5 x limit) and in half of the random forests: '
+        'every copy must show the attribute as copy 1 does (an expression stays `name={..}`, observed with its braces; '
+        'output forms hard-coded in repeat_util.ATTR_KINDS from the Emmet syntax documentation). '
+        'Repeater placeholder `$#` next to counters: stream placeholders = two nested repeaters (elements and groups, '
+        'N1 in 2,3, N2 in 1,2,3) x where the `$#` stands (inner attribute before / after the numbered ones, inner text, '
+        'class, inner child, sibling before the inner repeater, outer attribute / text, several, three levels) x text '
+        '(none: `$#` yields nothing; one string; a list of lines with the inner, outer or both repeaters written `*` = '
+        'one copy per non-blank line, blank and indented lines included) x limit; 40% of the random forests carry `$#` in '
+        'classes, attribute values and text, with a string or with lines and randomly chosen enclosing units turned '
+        'into line repeaters. A line repeater is a repeated unit with N = number of non-blank lines (its counter and '
+        'the maxRepeat clause as for *N); only generated with a `$#` inside, and with lines every `$#` has one around '
+        'it (where the text goes without `$#` is not part of C02). The convert-level model/spec comparison (RepeatRun) '
+        'takes no text: cases with a text are compared through the markup model only.')
     g = Gen(ctx)
     g.corpus()
     g.forms()
